@@ -236,7 +236,7 @@ def read_requests(project, depth=4, bits="boundary"):
     def walk(prefix, typ, dims, lvl, cls):
         if typ == "DWORD" and dims:
             nb = 32 * dims[0]
-            out.append((prefix, cls + "/boolarray-first"))
+            out.append((prefix, cls + "/boolarray-first"))  # reading: first element; writing: unspecified, not used
             for i in sorted({0, 1, 31, 32, 33, 63, 64, nb - 1} & set(range(nb))):
                 out.append((f"{prefix}[{i}]", cls + "/boolarray-elem"))
             for s in sorted({0, 1, 31, 32, 33} & set(range(nb))):
@@ -307,3 +307,228 @@ def same_value(a, b):
     from .typespace import same_value as sv
 
     return sv(a, b)
+
+
+# ---------------------------------------------------------------- writes
+class WriteExpect:
+    """Reference effect of one write request on the addressed tag."""
+
+    def __init__(self, ok, why=None):
+        self.ok, self.why = ok, why
+        self.tag = None
+        self.kind = None  # 'write' | 'rmw'
+        self.typestr = None
+        self.name = None
+        self.nbytes = 0
+        self._apply = None
+
+    def after(self, prior):
+        """(expected image, care mask) of the whole tag after the write, given its prior image."""
+        return self._apply(bytes(prior))
+
+
+def _enc_elem(typ, v):
+    """Reference encoding of one element; returns (bytes, care mask)."""
+    d = type_desc(typ)
+    if isinstance(typ, TypeDef) and typ.string_capacity is not None:
+        if not isinstance(v, str):
+            raise R.RefError("string value must be str")
+        cap = typ.string_capacity
+        s = v[:cap]
+        data = s.encode("latin-1") if all(ord(c) < 256 for c in s) else None
+        if data is None:
+            raise R.RefError("character outside Latin-1")
+        img = struct.pack("<I", len(data)) + data + bytes(typ.size - 4 - len(data))
+        mask = b"\xff" * (4 + len(data)) + bytes(typ.size - 4 - len(data))
+        return img, mask
+    if isinstance(typ, TypeDef):
+        if not isinstance(v, dict):
+            raise R.RefError("structure value must be a dict")
+        img = bytearray(typ.size)
+        mask = bytearray(typ.size)
+        for m in typ.members:
+            if typ.hides(m):
+                continue
+            if m.name not in v:
+                raise R.RefError(f"missing member {m.name}")
+            if m.is_bit:
+                if v[m.name]:
+                    img[m.offset] |= 1 << m.bit
+                mask[m.offset] |= 1 << m.bit
+                continue
+            esz = type_size(m.typ)
+            vals = v[m.name]
+            if m.dim:
+                if m.typ == "DWORD":
+                    bits = list(vals)
+                    if len(bits) != 32 * m.dim:
+                        raise R.RefError("wrong number of BOOLs")
+                    for i, b in enumerate(bits):
+                        if b:
+                            img[m.offset + i // 8] |= 1 << (i % 8)
+                    mask[m.offset : m.offset + 4 * m.dim] = b"\xff" * (4 * m.dim)
+                    continue
+                vals = list(vals)
+                if len(vals) < m.dim:
+                    raise R.RefError("too few elements")
+                for i in range(m.dim):
+                    e, k = _enc_elem(m.typ, vals[i])
+                    img[m.offset + i * esz : m.offset + (i + 1) * esz] = e
+                    mask[m.offset + i * esz : m.offset + (i + 1) * esz] = k
+            else:
+                e, k = _enc_elem(m.typ, vals)
+                img[m.offset : m.offset + esz] = e
+                mask[m.offset : m.offset + esz] = k
+        return bytes(img), bytes(mask)
+    if typ == "BOOL":
+        return (b"\x01" if v else b"\x00"), b"\xff"
+    if typ == "DWORD":
+        bits = list(v)
+        if len(bits) != 32:
+            raise R.RefError("DWORD needs 32 BOOLs")
+    e = R.enc(d, v)
+    return e, b"\xff" * len(e)
+
+
+def write_expect(project, text, value):
+    try:
+        t = parse_request(project, text)
+    except Bad as b:
+        return WriteExpect(False, b.why)
+    if t.tag.access in (2, 3):
+        return WriteExpect(False, "no-write-access")
+    w = WriteExpect(True)
+    w.tag, w.name = t.tag, tag_echo(text)
+    total = len(t.tag.data)
+    try:
+        if t.kind == "boolarray":
+            single = t.count == 1
+            if single:
+                if isinstance(value, (list, tuple, bytes, dict, str)):
+                    return WriteExpect(False, "unencodable")
+                w.kind, w.typestr, w.nbytes = "rmw", "BOOL", 4
+                bi = t.start
+
+                def apply(prior, bi=bi, off=t.offset, v=bool(value)):
+                    img = bytearray(prior)
+                    if v:
+                        img[off + bi // 8] |= 1 << (bi % 8)
+                    else:
+                        img[off + bi // 8] &= ~(1 << (bi % 8)) & 0xFF
+                    return bytes(img), b"\xff" * len(img)
+            else:
+                if t.start % 32 or t.count % 32:
+                    return WriteExpect(False, "misaligned-bool-array")
+                vals = list(value)
+                if len(vals) < t.count:
+                    return WriteExpect(False, "too-short")
+                vals = vals[: t.count]
+                w.kind, w.typestr, w.nbytes = "write", f"BOOL[{t.count}]", t.count // 8
+                data = bytearray(t.count // 8)
+                for i, b in enumerate(vals):
+                    if b:
+                        data[i // 8] |= 1 << (i % 8)
+
+                def apply(prior, off=t.offset + t.start // 8, data=bytes(data)):
+                    img = bytearray(prior)
+                    img[off : off + len(data)] = data
+                    return bytes(img), b"\xff" * len(img)
+        elif t.kind == "boolmember":
+            if isinstance(value, (list, tuple, bytes, dict, str)):
+                return WriteExpect(False, "unencodable")
+            w.kind, w.typestr, w.nbytes = "write", "BOOL", 1
+
+            def apply(prior, off=t.offset, bit=t.bit, v=bool(value)):
+                img = bytearray(prior)
+                if v:
+                    img[off] |= 1 << bit
+                else:
+                    img[off] &= ~(1 << bit) & 0xFF
+                return bytes(img), b"\xff" * len(img)
+        elif t.kind == "bit":
+            if isinstance(value, (list, tuple, bytes, dict, str)):
+                return WriteExpect(False, "unencodable")
+            w.kind, w.typestr, w.nbytes = "rmw", "BOOL", type_size(t.typ)
+
+            def apply(prior, off=t.offset, bit=t.bit, v=bool(value)):
+                img = bytearray(prior)
+                if v:
+                    img[off + bit // 8] |= 1 << (bit % 8)
+                else:
+                    img[off + bit // 8] &= ~(1 << (bit % 8)) & 0xFF
+                return bytes(img), b"\xff" * len(img)
+        else:
+            sz = type_size(t.typ)
+            tn = type_name(t.typ)
+            w.kind = "write"
+            w.typestr = tn if t.count == 1 else f"{tn}[{t.count}]"
+            w.nbytes = sz * t.count
+            if isinstance(value, (bytes, bytearray)):
+                raw = bytes(value)
+                if len(raw) != sz * t.count:
+                    return WriteExpect(False, "raw-length")
+                data, mask = raw, b"\xff" * len(raw)
+            elif t.count == 1:
+                data, mask = _enc_elem(t.typ, value)
+            else:
+                if isinstance(value, (str, dict)) or not hasattr(value, "__len__"):
+                    return WriteExpect(False, "unencodable")
+                vals = list(value)
+                if len(vals) < t.count:
+                    return WriteExpect(False, "too-short")
+                parts = [_enc_elem(t.typ, x) for x in vals[: t.count]]
+                data = b"".join(p[0] for p in parts)
+                mask = b"".join(p[1] for p in parts)
+
+            def apply(prior, off=t.offset, data=data, mask=mask):
+                img = bytearray(prior)
+                care = bytearray(b"\xff" * len(img))
+                img[off : off + len(data)] = data
+                care[off : off + len(mask)] = mask
+                return bytes(img), bytes(care)
+    except (R.RefError, TypeError, ValueError, AttributeError):
+        return WriteExpect(False, "unencodable")
+    w._apply = apply
+    return w
+
+
+def boundary_values(typ):
+    """Write values for one element of `typ` (in domain)."""
+    if isinstance(typ, TypeDef):
+        if typ.string_capacity is not None:
+            cap = typ.string_capacity
+            return ["", "a", "x" * max(cap - 1, 0), "y" * cap, "z" * (cap + 1), "w" * (cap + 40), "\xe9\xff\x01"[: max(1, min(3, cap))]]
+        return [struct_value(typ, k) for k in range(3)]
+    if typ == "BOOL":
+        return [True, False, 1, 0]
+    if typ in ("REAL", "LREAL"):
+        return [0.0, -1.5, 3.4028234663852886e38 if typ == "REAL" else 1.7976931348623157e308, 1e-45 if typ == "REAL" else 5e-324, 100.25, 7]
+    if typ == "DWORD":
+        return [[bool((0xA5A5A5A5 >> i) & 1) for i in range(32)]]
+    bits = INT_TYPES[typ]
+    signed = ATOMS[typ][2][2]
+    lo, hi = (-(1 << (bits - 1)), (1 << (bits - 1)) - 1) if signed else (0, (1 << bits) - 1)
+    return sorted({lo, hi, 0, 1, hi - 1, lo + 1, 0x5A & hi, (0x1234567812345678 & hi)})
+
+
+def struct_value(typ, k):
+    v = {}
+    for i, m in enumerate(typ.visible):
+        if m.is_bit:
+            v[m.name] = bool((k + i) % 2)
+            continue
+        if m.dim:
+            if m.typ == "DWORD":
+                v[m.name] = [bool((k + i + j) % 3 == 0) for j in range(32 * m.dim)]
+            else:
+                v[m.name] = [elem_value(m.typ, k + i + j) for j in range(m.dim)]
+        else:
+            v[m.name] = elem_value(m.typ, k + i)
+    return v
+
+
+def elem_value(typ, k):
+    vals = boundary_values(typ)
+    if isinstance(typ, TypeDef) and typ.string_capacity is not None:
+        vals = vals[:4]
+    return vals[k % len(vals)]
